@@ -48,7 +48,8 @@ ASSUMPTIONS = ['supported size family = pv/families.py']
 REQUIRED_COUNTERS = ['specs_parsed', 'simulations_compared',
                      'registry_keys_checked', 'round_trips',
                      'expand_calls_checked', 'runs_form_specs',
-                     'list_of_ranges_specs']
+                     'list_of_ranges_specs',
+                     'expansions_after_reregistration']
 
 CODE_POOL = {
     'Toric2DCode': [(2, 2), (3, 3), (2, 3), (3, 4), (4, 4)],
@@ -466,6 +467,87 @@ def check_registries(out):
         reg.update(before)
 
 
+def check_reregistration(out):
+    """A name resolves to the class registered under it WHEN the
+    specification is expanded: expand, register another class under the same
+    name (the edit-the-class-and-rerun workflow), expand the same spec."""
+    import contextlib
+    import io
+    import tempfile
+    from panqec import config
+    from panqec.simulation import read_input_dict
+    from panqec.codes import Toric2DCode, Planar2DCode
+    from panqec.decoders import MatchingDecoder, UnionFindDecoder
+    from panqec.error_models import PauliErrorModel
+
+    def make(name, base):
+        return type(name, (base,), {})
+    plans = [
+        ('code', config.register_code, config.CODES, 'MyReRegCode',
+         [Toric2DCode, Planar2DCode, Toric2DCode]),
+        ('decoder', config.register_decoder, config.DECODERS,
+         'MyReRegDecoder', [MatchingDecoder, UnionFindDecoder]),
+        ('error_model', config.register_error_model, config.ERROR_MODELS,
+         'MyReRegNoise', [PauliErrorModel, PauliErrorModel]),
+    ]
+    for axis, fn, reg, name, bases in plans:
+        before = dict(reg)
+        try:
+            for gen, base in enumerate(bases):
+                cls = make(name, base)
+                if axis == 'decoder':
+                    cls.allowed_codes = None
+                fn(cls)
+                for form in ('dict', 'list'):
+                    cp = [{'L_x': 3, 'L_y': 3}, {'L_x': 4, 'L_y': 4}] \
+                        if form == 'dict' else [[3, 3], [4, 4]]
+                    spec = {'ranges': {
+                        'label': 'rereg',
+                        'code': {'name': name if axis == 'code'
+                                 else 'Toric2DCode', 'parameters': cp},
+                        'error_model': {
+                            'name': name if axis == 'error_model'
+                            else 'PauliErrorModel',
+                            'parameters': [{'r_x': 1 / 3, 'r_y': 1 / 3,
+                                            'r_z': 1 / 3}]},
+                        'decoder': {'name': name if axis == 'decoder'
+                                    else 'MatchingDecoder',
+                                    'parameters': {}},
+                        'error_rate': [0.1, 0.2]}}
+                    with tempfile.TemporaryDirectory() as td, \
+                            contextlib.redirect_stdout(io.StringIO()):
+                        batch = read_input_dict(
+                            spec, os.path.join(td, 'o.json'), verbose=False)
+                    sims = list(batch._simulations)
+                    out.count('expansions_after_reregistration')
+                    desc = {'axis': axis, 'name': name, 'generation': gen,
+                            'base': base.__name__, 'form': form,
+                            'simulations': len(sims)}
+                    out.case(desc, gen > 0, sample=desc if gen == 1 else None)
+                    if len(sims) != 4:
+                        out.violation(
+                            f'registry/re-registered-{axis}/count',
+                            f'{len(sims)} simulations for 2 sizes x 2 rates',
+                            desc)
+                    attr = {'code': 'code', 'decoder': 'decoder',
+                            'error_model': 'error_model'}[axis]
+                    wrong = [type(getattr(sm, attr)).__mro__[1].__name__
+                             for sm in sims
+                             if type(getattr(sm, attr)) is not cls]
+                    if wrong:
+                        out.violation(
+                            f'registry/re-registered-{axis}/stale-class',
+                            f'{name!r} is registered as a {base.__name__} '
+                            f'subclass but {len(wrong)} simulation(s) were '
+                            f'built with another class ({wrong[0]} '
+                            'subclass)', desc)
+        finally:
+            for k in list(reg):
+                if k not in before:
+                    reg.pop(k)
+            reg.update(before)
+
+
 def run_specs(task, out):
     rng = np.random.default_rng([task['seed'], 1313, task['i']])
     for j in range(task['n']):
@@ -569,6 +651,7 @@ def plan(tier, seed):
 
 def run_task(task, out):
     if task['kind'] == 'registry':
+        check_reregistration(out)
         check_registries(out)
     elif task['kind'] == 'direct':
         run_direct_roundtrips(task, out)
